@@ -617,7 +617,13 @@ where
                         let data = annotation.data().next().unwrap();
                         let set = data.store();
                         AnnotationCsv {
-                            id: annotation.id().map(|x| Cow::Borrowed(x)),
+                            id: if let Some(id) = annotation.id() {
+                                Some(Cow::Borrowed(id))
+                            } else {
+                                Some(Cow::Owned(
+                                    annotation.as_ref().temp_id().expect("temp id must succeed"),
+                                ))
+                            },
                             data_ids: if let Some(id) = data.id() {
                                 Cow::Borrowed(id)
                             } else {
@@ -680,7 +686,13 @@ where
                             };
                         }
                         AnnotationCsv {
-                            id: annotation.id().map(|x| Cow::Borrowed(x)),
+                            id: if let Some(id) = annotation.id() {
+                                Some(Cow::Borrowed(id))
+                            } else {
+                                Some(Cow::Owned(
+                                    annotation.as_ref().temp_id().expect("temp id must succeed"),
+                                ))
+                            },
                             data_ids: Cow::Owned(data_ids),
                             set_ids: Cow::Owned(set_ids),
                             selectortype: AnnotationCsv::set_selectortype(
@@ -1145,7 +1157,34 @@ impl AnnotationStore {
         for result in reader.deserialize() {
             let record: AnnotationCsv = result
                 .map_err(|e| StamError::CsvError(format!("{}", e), "while parsing Annotation"))?;
-            self.annotate(record.try_into()?)?;
+            //temporary public IDs map to handles directly, they are stripped and the gaps are restored (like in STAM JSON)
+            let handle_from_temp_id = if self.config().strip_temp_ids() {
+                record
+                    .id
+                    .as_ref()
+                    .filter(|id| id.starts_with("!A"))
+                    .and_then(|id| crate::store::resolve_temp_id(id))
+            } else {
+                None
+            };
+            let mut builder: AnnotationBuilder = record.try_into()?;
+            if let Some(handle) = handle_from_temp_id {
+                if self.annotations.len() > handle {
+                    return Err(StamError::OtherError(
+                        "unable to resolve temporary public identifiers for annotations",
+                    ));
+                } else if handle > self.annotations.len() {
+                    let additional = handle - self.annotations.len();
+                    self.annotations.try_reserve(additional).map_err(|_| {
+                        StamError::OtherError(
+                            "unable to allocate memory for the gap implied by a temporary public identifier for annotations",
+                        )
+                    })?;
+                    self.annotations.resize_with(handle, Default::default);
+                }
+                builder.id = BuildItem::None;
+            }
+            self.annotate(builder)?;
         }
         Ok(())
     }
